@@ -1,4 +1,4 @@
-\* quick, "structure": every Go file of <= 1 import and <= 3 declarations over 2 struct types (with / without a
+\* quick, "structure": every Go file of <= 1 import and <= 3 declarations over 2 struct types A, b (with / without a
 \* field), an interface (with / without a method), pointer method M and value method N on either type (with /
 \* without a receiver call) and a function - in EVERY order, methods before their receiver type included; every
 \* Python module of <= 3 statements over 5 import forms, (decorated) classes with 0..2 (decorated) methods and
